@@ -2,7 +2,14 @@ package main
 
 import (
 	"context"
+	"encoding/json"
 	"fmt"
+	"os"
+	"runtime"
+	"sync"
+	"sync/atomic"
+	"time"
+	"unsafe"
 
 	z80 "github.com/koron-go/z80"
 	"github.com/koron-go/z80/internal/verif/obs"
@@ -66,6 +73,9 @@ type Worker struct {
 	frame []frameSnap
 	// scratch
 	diff []string
+	// liveness: published while the worker is inside CPU.Step (see stepLiveness)
+	live    *liveSlot
+	curCase *Case
 }
 
 // frameSnap is what a device callback saw in the CPU's exported registers.
@@ -140,7 +150,215 @@ func newWorker(bg *[65536]uint8) *Worker {
 	w.cpu.RETIHandler = &w.reti
 	w.bus = &refBus{w.rmem, w.rio}
 	w.imem.Limit = 4096
+	w.live = newLiveSlot()
 	return w
+}
+
+// Step liveness. A Step that loops without touching memory is invisible to the access-count watchdog of the
+// observing memory, and the worker that runs into it would simply never come back: the check would sit there
+// until somebody's timeout kills it, without a verdict. Every worker therefore publishes "I am inside
+// CPU.Step with this case" (seq odd), and one monitor goroutine per process looks every five seconds: a
+// worker that has been inside the same Step for two minutes - a Step takes well under a microsecond - is
+// reported with its case, and the run ends with that violation.
+type liveSlot struct {
+	_   [128]byte // slots of different workers must not share a cache line: seq is stored to around every Step
+	seq uint64
+	cur interface{} // *Case, *c12Config, ...: marshalled into the replay file
+	_   [128]byte
+}
+
+func (l *liveSlot) enter(cur interface{}) {
+	if l == nil {
+		return
+	}
+	l.cur = cur
+	atomic.StoreUint64(&l.seq, l.seq+1)
+}
+
+// reset: not inside a Step any more, whatever was published.
+func (l *liveSlot) reset() {
+	if l != nil && l.seq&1 == 1 {
+		atomic.StoreUint64(&l.seq, l.seq+1)
+	}
+}
+
+func (l *liveSlot) leave() {
+	if l != nil {
+		atomic.StoreUint64(&l.seq, l.seq+1)
+	}
+}
+
+var live struct {
+	mu      sync.Mutex
+	slots   []*liveSlot
+	ctx     *Ctx
+	started bool
+}
+
+func newLiveSlot() *liveSlot {
+	l := &liveSlot{}
+	live.mu.Lock()
+	live.slots = append(live.slots, l)
+	if !live.started && live.ctx != nil {
+		live.started = true
+		go stepLiveness()
+	}
+	live.mu.Unlock()
+	return l
+}
+
+// liveStep executes one Step of cpu under a liveness slot, for code that has no worker of its own. The slot is
+// chosen by the address of the CPU (goroutines step CPUs of their own, so a slot stays in one core's cache);
+// if two goroutines collide on a slot the second one simply steps unpublished. A panic passes through.
+var liveShard [1024]liveSlot
+
+func init() {
+	for i := range liveShard {
+		live.slots = append(live.slots, &liveShard[i])
+	}
+}
+
+func liveStep(cpu *z80.CPU) {
+	l := &liveShard[(uintptr(unsafe.Pointer(cpu))>>4)%uintptr(len(liveShard))]
+	q := atomic.LoadUint64(&l.seq)
+	if q&1 == 0 && atomic.CompareAndSwapUint64(&l.seq, q, q+1) {
+		l.cur = cpu
+		defer atomic.StoreUint64(&l.seq, q+2)
+	}
+	cpu.Step()
+}
+
+// liveStep for a worker's own CPU.
+func (w *Worker) liveStep() {
+	defer w.live.leave()
+	w.live.enter(&w.cpu)
+	w.cpu.Step()
+}
+
+// describeCPU: registers, pending request and the bytes at PC of a CPU that is stuck inside Step (read without
+// synchronisation: the goroutine that owns it has not moved for minutes).
+func describeCPU(cpu *z80.CPU) string {
+	st := fromCPU(cpu)
+	s := fmt.Sprintf("state %v", stateMap(&st))
+	if r := cpu.Interrupt; r != nil {
+		d := r.Data
+		if len(d) > 8 {
+			d = d[:8]
+		}
+		s += fmt.Sprintf(", pending request type %d with %d data bytes [% X]", r.Type, len(r.Data), d)
+	}
+	func() {
+		defer func() { recover() }()
+		if m, ok := cpu.Memory.(*obs.Mem); ok {
+			s += fmt.Sprintf(", memory at PC: % X", []uint8{m.Peek(cpu.PC), m.Peek(cpu.PC + 1), m.Peek(cpu.PC + 2), m.Peek(cpu.PC + 3)})
+		}
+	}()
+	return s
+}
+
+// two minutes; VERIF_STEP_LIVENESS_SECONDS shortens it for the machinery's own self-test (mutants/*-live-*.diff)
+var stepLivenessLimit = time.Duration(envInt("VERIF_STEP_LIVENESS_SECONDS", 120)) * time.Second
+
+// heapGuard ends the run with a violation when the live heap passes heapLimit while some worker is inside a
+// Step it entered before the previous look. The drivers' own peak is recorded in the evidence (peak_heap_mb);
+// it stays below 2 GB in every check on the unchanged tree.
+const heapLimit = 20 << 30
+
+var heapPeak uint64
+var heapPrev = map[*liveSlot]uint64{}
+
+func heapGuard() {
+	var ms runtime.MemStats
+	runtime.ReadMemStats(&ms)
+	if ms.HeapAlloc > atomic.LoadUint64(&heapPeak) {
+		atomic.StoreUint64(&heapPeak, ms.HeapAlloc)
+	}
+	live.mu.Lock()
+	ls := append([]*liveSlot(nil), live.slots...)
+	c := live.ctx
+	live.mu.Unlock()
+	var stuck *liveSlot
+	for _, l := range ls {
+		q := atomic.LoadUint64(&l.seq)
+		if q&1 == 1 && heapPrev[l] == q {
+			stuck = l
+		}
+		heapPrev[l] = q
+	}
+	if ms.HeapAlloc < heapLimit || stuck == nil {
+		return
+	}
+	desc := fmt.Sprintf("%+v", stuck.cur)
+	var cfg interface{} = map[string]string{"case": desc}
+	if cs, ok := stuck.cur.(*Case); ok {
+		cfg = cs.toJSON(c.Salt)
+		desc = fmt.Sprintf("bytes % X at PC=%04X, state %v", cs.Bytes, cs.S.PC, stateMap(&cs.S))
+	} else if cp, ok := stuck.cur.(*z80.CPU); ok {
+		desc = describeCPU(cp)
+		cfg = map[string]string{"cpu": desc}
+	} else if b, err := json.Marshal(stuck.cur); err == nil {
+		desc = string(b)
+		cfg = stuck.cur
+	}
+	c.Report("no-return:step-allocating", 0, "", cfg, []string{fmt.Sprintf("the live heap reached %d MB while CPU.Step has been running for more than a second on one case (a Step takes under a microsecond and allocates next to nothing): %s", ms.HeapAlloc>>20, desc)})
+	os.Exit(c.finish())
+}
+
+func startLiveness() {
+	live.mu.Lock()
+	if !live.started && live.ctx != nil {
+		live.started = true
+		go stepLiveness()
+	}
+	live.mu.Unlock()
+}
+
+func stepLiveness() {
+	// counted in looks, not in elapsed time: if the whole process is suspended for a while (a stopped container,
+	// a laptop lid) the clock jumps but the number of looks does not
+	type obsv struct {
+		seq   uint64
+		looks int
+	}
+	last := map[*liveSlot]obsv{}
+	need := int(stepLivenessLimit / (5 * time.Second))
+	for {
+		// memory: a Step that allocates without bound would exhaust the machine (the sandbox has no limit) long
+		// before two minutes are over; the heap is looked at once a second
+		for i := 0; i < 5; i++ {
+			time.Sleep(time.Second)
+			heapGuard()
+		}
+		live.mu.Lock()
+		ls := append([]*liveSlot(nil), live.slots...)
+		c := live.ctx
+		live.mu.Unlock()
+		for _, l := range ls {
+			q := atomic.LoadUint64(&l.seq)
+			o, ok := last[l]
+			if q&1 == 0 || !ok || o.seq != q {
+				last[l] = obsv{q, 0}
+				continue
+			}
+			o.looks++
+			last[l] = o
+			if o.looks >= need {
+				var cfg interface{} = l.cur
+				desc := fmt.Sprintf("%+v", l.cur)
+				if cs, ok := l.cur.(*Case); ok {
+					cfg = cs.toJSON(c.Salt)
+					desc = fmt.Sprintf("bytes % X at PC=%04X, state %v", cs.Bytes, cs.S.PC, stateMap(&cs.S))
+				} else if cp, ok := l.cur.(*z80.CPU); ok {
+					desc = describeCPU(cp)
+					cfg = map[string]string{"cpu": desc}
+				} else if b, err := json.Marshal(l.cur); err == nil {
+					desc = string(b)
+				}
+				c.Report("no-return:step", 0, "", cfg, []string{fmt.Sprintf("CPU.Step did not return within %v (it makes no memory access, so the access-count watchdog cannot end it; a Step takes under a microsecond): %s", stepLivenessLimit, desc)})
+				os.Exit(c.finish())
+			}
+		}
+	}
 }
 
 // warmFork returns a CPU *value* with a past: another CPU object (which stays alive) first executes a few
@@ -160,12 +378,12 @@ func warmFork(mem z80.Memory, io z80.IO, poke func(a uint16, b ...uint8), st *re
 	func() {
 		defer func() { recover() }()
 		for i := 0; i < 5; i++ {
-			warm.Step()
+			liveStep(warm)
 		}
 		s = *st
 		toCPU(&s, warm)
 		poke(s.PC, code...)
-		warm.Step()
+		liveStep(warm)
 	}()
 	return *warm
 }
@@ -384,6 +602,7 @@ func (w *Worker) setup(cs *Case) {
 }
 
 func (w *Worker) stepBothNoSetup(cs *Case) *StepResult {
+	w.curCase = cs
 	res := &w.res
 	res.Panic, res.RefPanic = nil, nil
 	res.Exp = cs.S
@@ -400,6 +619,8 @@ func (w *Worker) safeRef(res *StepResult) {
 
 func (w *Worker) safeImpl(res *StepResult) {
 	defer w.recoverInto(&res.Panic)
+	defer w.live.leave()
+	w.live.enter(w.curCase)
 	w.cpu.Step()
 }
 
